@@ -240,12 +240,14 @@ def parse_specification(
     else:
         primitives_used = {x for x in grammar.alphabet if isinstance(x, Primitive)}
         variables = list(x for x in grammar.alphabet if isinstance(x, Variable))
-    spec = spec.replace("\n", "").strip(")(")
+    spec = spec.replace("\n", "").strip(")( ")
     index = 0
     elements = []
     while index < len(spec):
         spec = spec[index:]
         word, index = __parse_next_word__(spec)
+        if len(word) == 0:  # consecutive blanks
+            continue
         if word.startswith("("):
             token = parse_specification(word, grammar)
         else:
